@@ -499,6 +499,9 @@ type ClientSession struct {
 	// Unsubscribe straight to the resources/subscribe and resources/unsubscribe
 	// RPCs and leaves this map untouched.
 	resourceSubs map[string]context.CancelFunc
+	// resourceSubsClosed is set by Close: a Subscribe that comes later must
+	// not open a listen that nobody would cancel any more.
+	resourceSubsClosed bool
 }
 
 type clientSessionState struct {
@@ -1394,6 +1397,10 @@ func (cs *ClientSession) Subscribe(ctx context.Context, params *SubscribeParams)
 
 	var listenCtx context.Context
 	cs.resourceSubsMu.Lock()
+	if cs.resourceSubsClosed {
+		cs.resourceSubsMu.Unlock()
+		return fmt.Errorf("%w: Subscribe on a closed session", ErrConnectionClosed)
+	}
 	if _, exists := cs.resourceSubs[uri]; !exists {
 		var cancel context.CancelFunc
 		listenCtx, cancel = context.WithCancel(context.Background())
@@ -1457,6 +1464,7 @@ func (cs *ClientSession) cancelAllResourceSubscriptions() {
 	cs.resourceSubsMu.Lock()
 	subs := cs.resourceSubs
 	cs.resourceSubs = nil
+	cs.resourceSubsClosed = true
 	cs.resourceSubsMu.Unlock()
 	for _, cancel := range subs {
 		cancel()
